@@ -500,3 +500,20 @@ def entails(env: dict, guard: ast.AST, max_props: int = 12) -> bool:
 def names_tracker(*names: str) -> Callable[[str], bool]:
     s = set(names)
     return lambda a: a in s
+
+
+def equivalent(e1: ast.AST, e2: ast.AST, max_props: int = 10) -> bool | None:
+    """Are the two tests propositionally equivalent (same truth value under every valuation of their base propositions)?  None if too many propositions."""
+    import itertools
+
+    props: set = set()
+    _props(e1, props)
+    _props(e2, props)
+    ps = sorted(props, key=str)
+    if len(ps) > max_props:
+        return None
+    for bits in itertools.product((False, True), repeat=len(ps)):
+        val = dict(zip(ps, bits))
+        if _holds(e1, val) != _holds(e2, val):
+            return False
+    return True
